@@ -130,3 +130,26 @@ pub fn holder_jwk(alg: Alg, idx: usize) -> Jwk {
 pub fn holder_jwk_json_canonical(alg: Alg, idx: usize) -> serde_json::Value {
     serde_json::to_value(holder_jwk(alg, idx)).expect("jwk to value")
 }
+
+/// Additional issuer algorithms exercised through the signing oracle only (the properties list
+/// ES256 / EdDSA / HS256; RSA and P-384 tokens must of course obey the same rules).
+pub const EXTRA_ALGS: [&str; 5] = ["RS256", "PS256", "RS512", "PS384", "ES384"];
+
+pub fn extra_alg(name: &str) -> jsonwebtoken::Algorithm {
+    use std::str::FromStr;
+    jsonwebtoken::Algorithm::from_str(name).expect("known algorithm")
+}
+pub fn extra_enc(name: &str) -> EncodingKey {
+    if name == "ES384" {
+        EncodingKey::from_ec_pem(include_str!("../keys/es384_a.pem").as_bytes()).expect("es384 key")
+    } else {
+        EncodingKey::from_rsa_pem(include_str!("../keys/rsa_a.pem").as_bytes()).expect("rsa key")
+    }
+}
+pub fn extra_dec(name: &str) -> DecodingKey {
+    if name == "ES384" {
+        DecodingKey::from_ec_pem(include_str!("../keys/es384_a.pub.pem").as_bytes()).expect("es384 pub")
+    } else {
+        DecodingKey::from_rsa_pem(include_str!("../keys/rsa_a.pub.pem").as_bytes()).expect("rsa pub")
+    }
+}
